@@ -30,6 +30,7 @@ type c03Case struct {
 	Kind     string   `json:"kind"`
 	Tag      string   `json:"tag,omitempty"`
 	Profiles []string `json:"profiles"`
+	Pasts    []string `json:"pasts,omitempty"` // per input: what it went through before the merge (c03_past.go)
 	Perm     []int    `json:"perm,omitempty"` // order used for the order-independence check
 	Compact  bool     `json:"compact,omitempty"`
 }
@@ -343,9 +344,16 @@ func (c *Ctx) absTable(p *profile.Profile) (*wTable, string) {
 // (order independence, compact idempotence) to save time on the bulk stream.
 func c03Check(c *Ctx, cs c03Case, full bool) (nontrivial bool) {
 	sig := func(s string) string { return "C03/" + s }
-	ps := parseAll(c, cs.Profiles)
+	rep := cs // the case as generated (inputs before their pasts): this is what replay files hold
+	ps, canons := c03Inputs(c, rep)
 	if ps == nil || len(ps) == 0 {
 		return false
+	}
+	cs.Profiles, cs.Pasts = canons, nil // from here on: the inputs as they are when Merge is called
+	for _, pa := range rep.Pasts {
+		if pa != "" {
+			c.Res.Hit("past:" + pa)
+		}
 	}
 	compact := cs.Compact && len(ps) == 1
 	args := joinProfiles(cs.Profiles)
@@ -356,7 +364,7 @@ func c03Check(c *Ctx, cs c03Case, full bool) (nontrivial bool) {
 	// --- outcome class
 	if run.panic_ != "" {
 		if specReply == "incompatible" || strings.HasPrefix(specReply, "ok ") {
-			c.Violation(sig("merge/panic"), "Merge panics on valid profiles: "+c3trunc(run.panic_), cs)
+			c.Violation(sig("merge/panic"), "Merge panics on valid profiles: "+c3trunc(run.panic_), rep)
 		} else {
 			c.Res.HarnessError = "merge.spec: " + c3trunc(specReply)
 		}
@@ -365,11 +373,11 @@ func c03Check(c *Ctx, cs c03Case, full bool) (nontrivial bool) {
 	if specReply == "incompatible" {
 		c.Res.Hit("outcome:incompatible")
 		if run.err == nil {
-			c.Violation(sig("compat/accepted-incompatible/"+cs.Tag), "Merge accepts profiles whose sample/period types differ", cs)
+			c.Violation(sig("compat/accepted-incompatible/"+cs.Tag), "Merge accepts profiles whose sample/period types differ", rep)
 		}
 		c.Res.ModelCompared++
 		if m := c.Drv.Ask("merge.model " + args); m != "err" {
-			c.Disagree(sig("model/outcome-class"), "model does not reject incompatible inputs: "+c3trunc(m), c03Corr, cs)
+			c.Disagree(sig("model/outcome-class"), "model does not reject incompatible inputs: "+c3trunc(m), c03Corr, rep)
 		}
 		return false
 	}
@@ -379,7 +387,7 @@ func c03Check(c *Ctx, cs c03Case, full bool) (nontrivial bool) {
 		return false
 	}
 	if run.err != nil || run.out == nil {
-		c.Violation(sig("merge/error-on-compatible"), fmt.Sprintf("Merge fails on compatible valid profiles: %v", run.err), cs)
+		c.Violation(sig("merge/error-on-compatible"), fmt.Sprintf("Merge fails on compatible valid profiles: %v", run.err), rep)
 		return false
 	}
 	out := run.out
@@ -387,7 +395,7 @@ func c03Check(c *Ctx, cs c03Case, full bool) (nontrivial bool) {
 	oracleFailed := false
 	viol := func(s, what string) {
 		oracleFailed = true
-		c.Violation(sig(s), what, cs)
+		c.Violation(sig(s), what, rep)
 	}
 
 	// --- inputs unchanged, output independent of the inputs
@@ -489,7 +497,7 @@ func c03Check(c *Ctx, cs c03Case, full bool) (nontrivial bool) {
 	mreply := c.Drv.Ask(op)
 	if !strings.HasPrefix(mreply, "ok ") {
 		if !oracleFailed {
-			c.Disagree(sig("model/outcome-class/"+c3firstWord(mreply)), "model does not produce a profile where the code does: "+c3trunc(mreply), c03Corr, cs)
+			c.Disagree(sig("model/outcome-class/"+c3firstWord(mreply)), "model does not produce a profile where the code does: "+c3trunc(mreply), c03Corr, rep)
 		}
 	} else {
 		mcanon := mreply[3:]
@@ -500,12 +508,12 @@ func c03Check(c *Ctx, cs c03Case, full bool) (nontrivial bool) {
 		}
 		mabs := c.Drv.Ask("merge.abs " + mcanon)
 		if mt, err := parseTable(mabs); err != nil {
-			c.Disagree(sig("model/invalid-output"), "the model's output does not resolve: "+c3trunc(mabs), c03Corr, cs)
+			c.Disagree(sig("model/invalid-output"), "the model's output does not resolve: "+c3trunc(mabs), c03Corr, rep)
 		} else if !oracleFailed {
 			if s, what := compareTables(obs, mt, cs.Tag); s != "" {
-				c.Disagree(sig("model/"+s), "model and code disagree on the weight table: "+what, c03Corr, cs)
+				c.Disagree(sig("model/"+s), "model and code disagree on the weight table: "+what, c03Corr, rep)
 			} else if d := firstHeaderDiff(headerTokens(out), mt.header); d != "" {
-				c.Disagree(sig("model/header/"+d), "model and code disagree on header field "+d, c03Corr, cs)
+				c.Disagree(sig("model/header/"+d), "model and code disagree on header field "+d, c03Corr, rep)
 			}
 		}
 	}
@@ -527,7 +535,7 @@ func c03Check(c *Ctx, cs c03Case, full bool) (nontrivial bool) {
 
 	// --- order independence (weights; the order-insensitive header fields)
 	if len(ps) > 1 && len(cs.Perm) == len(ps) {
-		qs := parseAll(c, cs.Profiles)
+		qs, _ := c03Inputs(c, rep)
 		perm := make([]*profile.Profile, len(qs))
 		for i, j := range cs.Perm {
 			perm[i] = qs[j]
@@ -652,6 +660,14 @@ func mkCase(r *Rng, g c03Gen) c03Case {
 	if len(g.profiles) > 1 {
 		cs.Perm = shuffleInts(r, len(g.profiles))
 	}
+	// every input gets a past; the targeted streams only pasts that leave the content untouched
+	if strings.HasPrefix(g.kind, "family") || strings.HasPrefix(g.kind, "cancel") || strings.HasPrefix(g.kind, "header-grid") || g.kind == "compact" {
+		if r.Chance(60) {
+			cs.Pasts = randPasts(r, len(g.profiles), c03Pasts)
+		}
+	} else if r.Chance(30) {
+		cs.Pasts = randPasts(r, len(g.profiles), c03QuietPasts)
+	}
 	return cs
 }
 
@@ -707,6 +723,12 @@ func runC03(c *Ctx) {
 	// equal to a sibling field, equal to the other entity's, near miss), both orders, 3 placements
 	for i, fc := range c03FieldCases() {
 		one(genFieldCase(fc), fc.placement == 1 && i%4 == 0)
+	}
+	// (g) histories: every ordered pair of pasts on the same / a related profile
+	for _, hc := range c03HistoryCases(r) {
+		nt := c03Check(c, hc, true)
+		c.Res.Count(strings.Join(hc.Profiles, "|")+strings.Join(hc.Pasts, ","), nt)
+		c.Res.Hit("kind:history")
 	}
 	// (d) header grid
 	for i := 0; i < 70; i++ {
